@@ -71,4 +71,37 @@ MUTANTS = {
         "edits": [("Lib/fontTools/designspaceLib/__init__.py", "        backward = sorted((design, user) for user, design in axis_map)", "        backward = sorted((design, user + (1 if user > self.default else 0)) for user, design in axis_map)")],
         "check": ["C19", "--tier", "quick", "--only", "designspace"],
     },
+    # ---- C16
+    "c16_cff_shared_default_list": {
+        "edits": [("Lib/fontTools/cffLib/__init__.py", "                value = list(value)\n        if value is None:", "                pass\n        if value is None:")],
+        "check": ["C16", "--tier", "quick", "--only", "order", "--scale", "3"],
+    },
+    "c16_varstore_cached": {
+        "edits": [("Lib/fontTools/cffLib/__init__.py", "        if varStoreData.otVarStore is not None or not varStoreData.data:", "        if not varStoreData.data:")],
+        "check": ["C16", "--tier", "quick", "--only", "hist,hist_ensure"],
+    },
+    "c16_basetable_compile_mutates": {
+        "edits": [("Lib/fontTools/ttLib/tables/otBase.py", "            deleteFormat = False\n            table = self.__dict__.copy()", "            deleteFormat = False\n            table = self.__dict__")],
+        "check": ["C16", "--tier", "quick", "--only", "hist,hist_ensure,second_save"],
+    },
+    "c16_head_stamps_always": {
+        "edits": [("Lib/fontTools/ttLib/tables/_h_e_a_d.py", "        if ttFont.recalcTimestamp:", "        if True:")],
+        "check": ["C16", "--tier", "quick", "--only", "clock,hist"],
+    },
+    "c16_ignores_source_date_epoch": {
+        "edits": [("Lib/fontTools/misc/timeTools.py", "    if source_date_epoch is not None:", "    if False:")],
+        "check": ["C16", "--tier", "quick", "--only", "clock,hist"],
+    },
+    "c16_ttc_no_shared_timestamp": {
+        "edits": [("Lib/fontTools/ttLib/ttCollection.py", "        with _sharedModifiedTimestamp(self.fonts):", "        if True:")],
+        "check": ["C16", "--tier", "quick", "--only", "clock"],
+    },
+    "c16_gettabledata_compiles_unloaded": {
+        "edits": [("Lib/fontTools/ttLib/ttFont.py", "        elif self.reader and tag in self.reader:\n            log.debug(\"Reading '%s' table from disk\", tag)\n            return self.reader[tag]", "        elif self.reader and tag in self.reader:\n            return self[tag].compile(self)")],
+        "check": ["C16", "--tier", "quick", "--only", "hist"],
+    },
+    "c16_lazy_ligatures_not_decompiled": {
+        "edits": [("Lib/fontTools/ttLib/tables/otTables.py", "                for lig in ligs:\n                    lig.ensureDecompiled(recurse)", "                pass")],
+        "check": ["C16", "--tier", "quick", "--only", "hist,hist_ensure"],
+    },
 }
